@@ -7,7 +7,7 @@
    of ECMA-262 clause 13 for the operator fragment; inf is the [In] parameter).  All theorems quantify over all
    token lists / trees; tokens are (type, preceded-by-line-terminator, bytes) as Parser.next() delivers them. *)
 From Verif Require Import Common.Base Gen.PrattTable JsExpr.Syntax JsExpr.Pratt JsExpr.Grammar
-  JsExpr.Equiv JsExpr.Balance JsExpr.Proofs.
+  JsExpr.Equiv JsExpr.Balance JsExpr.Proofs JsExpr.Stmts.
 
 (* ---- the generated operator table ----------------------------------------------------------------------------------- *)
 
@@ -26,16 +26,6 @@ Theorem pratt_complete :
   forall inf ts t, derives inf Expression ts t -> parse inf prec_OpExpr ts = Ok (t, []).
 Proof. exact pratt_complete_proof. Qed.
 Print Assumptions pratt_complete.
-
-(* The same at the entry point that is diffed against js.Parse: a grammatical expression given as a whole program is
-   parsed to the single ExprStmt with exactly that tree.  Missing: programs whose first token is the identifier `let`
-   (parseStmt looks ahead for a lexical declaration there; the model's statement layer does not cover that arm). *)
-Theorem program_of_expression_partial :
-  forall ts t, derives true Expression ts t ->
-    (forall k r, ts = k :: r -> ty k <> tt_LetToken) ->
-    parse_program ts = Ok [SExpr t].
-Proof. exact program_of_expression_proof. Qed.
-Print Assumptions program_of_expression_partial.
 
 (* ---- soundness: what is accepted is grammatical, with the grammar's tree ------------------------------------------------------- *)
 
@@ -94,6 +84,61 @@ Theorem reject_unbalanced :
     forall t', parse inf prec_OpExpr (a ++ k :: b) <> Ok (t', []).
 Proof. exact reject_unbalanced_proof. Qed.
 Print Assumptions reject_unbalanced.
+
+(* ---- statements: where an ExpressionStatement ends (parseModule / parseStmt, JsExpr/Stmts.v) ---------------------------------- *)
+
+(* ExpressionStatement : [lookahead ∉ { {, function, async function, class, let [ }] Expression ;
+   One grammatical expression given as a whole program is parsed to the single ExprStmt with exactly its tree.  Of the
+   lookahead set only `let [` can start an expression of the fragment; [let_decl_start] is that restriction (`let`
+   followed by '[' — or by an identifier, yield, await, '{', after which no expression continues anyway). *)
+Theorem program_of_expression :
+  forall ts t, derives true Expression ts t -> let_decl_start ts = false -> parse_program ts = Ok [SExpr t].
+Proof. exact program_of_expression_full_proof. Qed.
+Print Assumptions program_of_expression.
+
+(* The statement ends at a ';' whether or not a line break precedes it (the second case was repaired by 5e610dc) and
+   the ';' is consumed ... *)
+Theorem stmt_ends_at_semicolon :
+  forall m xs x k rest, derives true Expression xs x -> let_decl_start (xs ++ k :: rest) = false ->
+    ty k = tt_SemicolonToken ->
+    parse_stmt (S m) (xs ++ k :: rest) = Ok (SExpr x, rest).
+Proof. exact stmt_ends_at_semicolon_proof. Qed.
+Print Assumptions stmt_ends_at_semicolon.
+
+(* ... at a line break, when the next token cannot continue the expression ([ncont]: it has no arm in the suffix loop, or
+   it is a ++ / -- , which a line break separates from its operand) — automatic semicolon insertion, nothing is consumed ... *)
+Theorem stmt_ends_at_line_break :
+  forall m xs x c rest, derives true Expression xs x -> let_decl_start (xs ++ c :: rest) = false ->
+    lt c = true -> Spec.ncont true prec_OpExpr (c :: rest) = true ->
+    ty c <> tt_SemicolonToken -> ty c <> tt_ColonToken ->
+    parse_stmt (S m) (xs ++ c :: rest) = Ok (SExpr x, c :: rest).
+Proof. exact stmt_ends_at_line_break_proof. Qed.
+Print Assumptions stmt_ends_at_line_break.
+
+(* ... and at the end of the input. *)
+Theorem stmt_ends_at_eof :
+  forall m xs x, derives true Expression xs x -> let_decl_start xs = false -> parse_stmt (S m) xs = Ok (SExpr x, []).
+Proof. exact stmt_ends_at_eof_proof. Qed.
+Print Assumptions stmt_ends_at_eof.
+
+(* Nowhere else: a token on the same line that cannot continue the expression and is neither ';' nor '}' is an error. *)
+Theorem stmt_needs_terminator :
+  forall m xs x c rest, derives true Expression xs x -> let_decl_start (xs ++ c :: rest) = false ->
+    lt c = false -> Spec.ncont true prec_OpExpr (c :: rest) = true ->
+    ty c <> tt_SemicolonToken -> ty c <> tt_CloseBraceToken -> ty c <> tt_ColonToken ->
+    parse_stmt (S m) (xs ++ c :: rest) = Fail.
+Proof. exact stmt_needs_terminator_proof. Qed.
+Print Assumptions stmt_needs_terminator.
+
+(* Whole programs: every statement list of expression statements, empty statements and labelled statements ([prog] /
+   [one]: each ExpressionStatement ended by ';' on any line, by a line break before a token that cannot continue it, or by
+   the end of the input) is parsed to exactly that list.  Missing: an EmptyStatement or LabelledStatement directly
+   followed by a ';' on the same line (`;;`, `l: x;;` — the code drops that EmptyStatement, KNOWN_FINDINGS
+   c03-tree:empty-statement-same-line; [one] leaves that shape out), and every other statement kind (searched by the
+   generator oracle). *)
+Theorem program_of_statements_partial : forall ts l, prog ts l -> parse_program ts = Ok l.
+Proof. exact program_of_statements_proof. Qed.
+Print Assumptions program_of_statements_partial.
 
 (* ---- the grammar relation ------------------------------------------------------------------------------------------------------------- *)
 
